@@ -47,19 +47,28 @@ fn names_of(archive: &[u8], password: Option<&str>) -> Result<Vec<String>, Strin
 
 pub fn fault(ctx: &mut Ctx) {
     let mut rng = rng_for(ctx.seed, "fault");
-    ctx.rule = "archives of 1..6 items (normal entries and solid blocks) x commands {append, update, delete, strip, chmod, chown, xattr set, acl set, migrate --output onto the archive} x fault kind {unreadable regular file among the inputs (read fails with EIO), corrupted entry (CRC), solid block under another password with --unsolid} \
+    ctx.rule = "archives of 1..6 items (normal entries and solid blocks) x commands {append, update (failing input new to the archive, or with the name of an archived entry), append/update with 131 inputs and the fault around positions 32/64/128, delete, strip, chmod, chown, xattr set, acl set, migrate --output onto the archive} x fault kind {unreadable regular file among the inputs (read fails with EIO), corrupted entry (CRC), solid block under another password with --unsolid} \
                 x every fault position k (and no fault); the real binary is run, exit status taken, and the archive file compared with its bytes before: identical, or valid and containing every original entry; compared with the model's outcome (fail unchanged | ok n=…)".into();
     let rounds = if ctx.thorough { 40 } else { 5 };
     let mut case_no = 0;
     for round in 0..rounds {
-        for cmd in ["append", "update", "delete", "strip", "chmod", "chown", "xattr", "acl", "migrate", "chmod-unsolid"] {
+        for cmd in ["append", "update", "update-same-name", "append-many", "update-many", "delete", "strip", "chmod", "chown", "xattr", "acl", "migrate", "chmod-unsolid"] {
+            let many = cmd.ends_with("-many");
+            if many && round > 0 && !ctx.thorough {
+                continue;
+            }
             let n = rng.gen_range(1..6usize);
             // fault positions: every k, plus "no fault"
-            let width = if cmd == "append" || cmd == "update" { rng.gen_range(1..5usize) } else { n };
+            let width = if many { 131 } else if cmd == "append" || cmd == "update" { rng.gen_range(1..5usize) } else { n };
             for k in 0..=width {
-                if !ctx.thorough && round > 0 && k != (round + case_no) % (width + 1) {
+                // many inputs: the positions around plausible batch sizes
+                if many && ![0usize, 31, 32, 63, 64, 65, 127, 128, 130, 131].contains(&k) {
                     continue;
                 }
+                if !many && !ctx.thorough && round > 0 && k != (round + case_no) % (width + 1) {
+                    continue;
+                }
+                let cmd = if many { cmd.trim_end_matches("-many") } else { cmd };
                 case_no += 1;
                 let sbx = Sbx::new("fault", case_no);
                 std::fs::create_dir_all(sbx.path("t")).unwrap();
@@ -93,7 +102,8 @@ pub fn fault(ctx: &mut Ctx) {
                     }
                     w.finalize().unwrap();
                 }
-                let input_fault = cmd == "append" || cmd == "update";
+                let same_name = cmd == "update-same-name";
+                let input_fault = cmd == "append" || cmd == "update" || same_name;
                 if fault_here && !input_fault && !solid_cmd {
                     // corrupt the k-th entry: flip one payload byte of its FDAT chunk (the CRC no longer matches)
                     let mut pos = 8;
@@ -116,7 +126,14 @@ pub fn fault(ctx: &mut Ctx) {
                 let mut args: Vec<String> = vec!["--quiet".into()];
                 let mut model_req = String::new();
                 let mut new_inputs: Vec<String> = vec![];
-                if input_fault {
+                if same_name && fault_here {
+                    // the k-th archived file is now an object the entry builder refuses (a FIFO; passed on by the walker with --keep-dir)
+                    let f = sbx.path(&format!("t/f{k}"));
+                    let _ = std::fs::remove_file(&f);
+                    let c = std::ffi::CString::new(f.to_string_lossy().as_bytes()).unwrap();
+                    unsafe { libc::mkfifo(c.as_ptr(), 0o644) };
+                }
+                if input_fault && !same_name {
                     for i in 0..width {
                         let g = format!("t/g{i}");
                         if fault_here && i == k {
@@ -136,6 +153,11 @@ pub fn fault(ctx: &mut Ctx) {
                         args.extend(["append", "a.pna", "--store"].map(String::from));
                         args.extend(new_inputs.iter().cloned());
                         model_req = format!("fault append {n} {}", if pat_inputs.is_empty() { "-".into() } else { pat_inputs.clone() });
+                    }
+                    "update-same-name" => {
+                        args.extend(["experimental", "update", "--unstable", "a.pna", "--store", "--keep-dir", "-r", "t"].map(String::from));
+                        // the n archived files are replaced (the k-th replacement cannot be built), the directory entry is new
+                        model_req = format!("fault rewrite {n} {} 1", pat_entries(&|_| false));
                     }
                     "update" => {
                         args.extend(["experimental", "update", "--unstable", "a.pna", "--store"].map(String::from));
